@@ -45,7 +45,7 @@ var Any fp.Semigroup[bool] = fp.SemigroupFunc[bool](func(a, b bool) bool {
 })
 
 var All fp.Semigroup[bool] = fp.SemigroupFunc[bool](func(a, b bool) bool {
-	return a || b
+	return a && b
 })
 
 func IMap[A, B any](instance fp.Semigroup[A], fab func(A) B, fba func(B) A) fp.Semigroup[B] {
